@@ -4,8 +4,11 @@ import (
 	"fmt"
 	"math"
 	"math/big"
+	"sort"
+	"strings"
 
 	sdkmath "cosmossdk.io/math"
+	sdk "github.com/cosmos/cosmos-sdk/types"
 	banktypes "github.com/cosmos/cosmos-sdk/x/bank/types"
 
 	ammtypes "github.com/elys-network/elys/x/amm/types"
@@ -170,7 +173,123 @@ func CheckC03Chain(h *History, blk *BlockRecord) []Violation {
 	if swaps >= 2 {
 		h.Labels["c03-blocks-with>=2-swaps"]++
 	}
-	return poolValueCheck(h, blk, c03SwapTx, "C03/per-share-value-fell-by-swaps", "c03", "only swaps, joins and exits")
+	out := poolValueCheck(h, blk, c03SwapTx, "C03/per-share-value-fell-by-swaps", "c03", "only swaps, joins and exits")
+	return append(out, c03FirstSwaps(h, blk)...)
+}
+
+// c03FirstSwaps: the first swap the end-blocker executes on a constant-product pool, against the closed formula.
+// Swap requests are executed after every transaction of the block (and after the governance end-blocker), so the
+// reserves that swap meets are the previous block's reserves plus the block's joins and exits – which are re-executed on
+// a branch of the previous state. What the swap took in and paid out is read from its own event. Whatever state the
+// implementation priced it from (live pool, per-block snapshot, a pricing mode that governance has just changed), the
+// output must not exceed the fee-less weighted-product formula on those reserves by more than the stated allowance.
+// Pools with perpetual or leveraged-LP activity are left out (other writers move their reserves inside the block).
+func c03FirstSwaps(h *History, blk *BlockRecord) []Violation {
+	if h.Prev == nil {
+		return nil
+	}
+	first := map[uint64][2]sdk.Coin{}
+	for _, e := range blk.Events {
+		if e.Type != ammtypes.TypeEvtTokenSwapped {
+			continue
+		}
+		var id uint64
+		if _, err := fmt.Sscanf(attr(e, ammtypes.AttributeKeyPoolId), "%d", &id); err != nil {
+			continue
+		}
+		if _, seen := first[id]; seen {
+			continue
+		}
+		// the swap of a user's request, not the conversion of its fee (which the same code runs inside the swap, on the
+		// reserves the swap has already moved, and reports first)
+		if h.W.ByAddr[attr(e, "sender")] == nil {
+			continue
+		}
+		in, err1 := sdk.ParseCoinsNormalized(attr(e, ammtypes.AttributeKeyTokensIn))
+		outc, err2 := sdk.ParseCoinsNormalized(attr(e, ammtypes.AttributeKeyTokensOut))
+		if err1 != nil || err2 != nil || len(in) != 1 || len(outc) != 1 {
+			first[id] = [2]sdk.Coin{} // unreadable: not judged, and no later swap of this pool either
+			continue
+		}
+		first[id] = [2]sdk.Coin{in[0], outc[0]}
+	}
+	if len(first) == 0 {
+		return nil
+	}
+	// swaps that transactions execute themselves (not queued) would come first: none of the judged pools has such writers
+	for _, tx := range blk.Txs {
+		if tx.Code == 0 && (strings.Contains(tx.MsgType, ".perpetual.") || strings.Contains(tx.MsgType, ".leveragelp.")) {
+			h.Labels["c03-first-swap-block-has-leveraged-activity"]++
+			return nil
+		}
+	}
+	ctx, ok := h.prevStateAtNewTime()
+	if !ok {
+		return nil
+	}
+	for _, tx := range blk.Txs {
+		if tx.Code != 0 {
+			continue
+		}
+		switch tx.Msg.(type) {
+		case *ammtypes.MsgJoinPool, *ammtypes.MsgExitPool:
+			if err, _ := execMsg(h.W, ctx, tx.Msg); err != nil {
+				h.Labels["c03-first-swap-reconstruction-failed"]++
+				return nil
+			}
+		}
+	}
+	var out []Violation
+	for _, id := range sortedKeysU64(first) {
+		io := first[id]
+		p, q := h.Cur.Pool(id), h.Prev.Pool(id)
+		if p == nil || q == nil || p.PoolParams.UseOracle || len(p.PoolAssets) != 2 || io[0].Denom == "" {
+			continue
+		}
+		if perpPoolOf(h.Prev, id) || perpPoolOf(h.Cur, id) || len(h.Prev.LPPositions)+len(h.Cur.LPPositions) > 0 {
+			continue
+		}
+		at, found := h.W.App.AmmKeeper.GetPool(ctx, id)
+		if !found {
+			continue
+		}
+		var bi, bo, wi, wo sdkmath.Int
+		for _, a := range at.PoolAssets {
+			switch a.Token.Denom {
+			case io[0].Denom:
+				bi, wi = a.Token.Amount, a.Weight
+			case io[1].Denom:
+				bo, wo = a.Token.Amount, a.Weight
+			}
+		}
+		if bi.IsNil() || bo.IsNil() || !bi.IsPositive() || !bo.IsPositive() || !wi.IsInt64() || !wo.IsInt64() || !wi.IsPositive() || !wo.IsPositive() {
+			continue
+		}
+		// weights are stored scaled by 2^30: reduce them (the bound is decided with integer powers)
+		gw := gcd64(wi.Int64(), wo.Int64())
+		wi, wo = wi.QuoRaw(gw), wo.QuoRaw(gw)
+		if wi.Int64() > 200 || wo.Int64() > 200 {
+			continue
+		}
+		h.Labels["c03-first-swaps-judged"]++
+		if q.PoolParams.UseOracle {
+			h.Labels["c03-first-swaps-judged-after-mode-switch"]++
+		}
+		if v := checkExactInBound(bi, bo, wi.Int64(), wo.Int64(), sdkmath.LegacyZeroDec(), io[0].Amount, io[1].Amount); v != "" {
+			out = append(out, Violation{Sig: "C03/end-block-swap-beats-the-curve", Detail: fmt.Sprintf("pool %d (constant-product at the end of the block, oracle-priced before: %v): the first swap executed at the end of the block took %s and paid %s; on the reserves it met (%s) %s (height %d; %s)",
+				id, q.PoolParams.UseOracle, io[0], io[1], poolReserves(&at), v, h.Cur.Height, blockSummary(blk))})
+		}
+	}
+	return out
+}
+
+func sortedKeysU64[V any](m map[uint64]V) []uint64 {
+	ks := make([]uint64, 0, len(m))
+	for k := range m {
+		ks = append(ks, k)
+	}
+	sort.Slice(ks, func(i, j int) bool { return ks[i] < ks[j] })
+	return ks
 }
 
 func poolValueCheck(h *History, blk *BlockRecord, quiet func(TxRecord) bool, sig, lbl, what string) []Violation {
@@ -203,6 +322,18 @@ func poolValueCheck(h *History, blk *BlockRecord, quiet func(TxRecord) bool, sig
 		}
 		if perpPoolOf(h.Prev, p.PoolId) || perpPoolOf(h.Cur, p.PoolId) {
 			h.Labels[lbl+"-pool-has-perp-exposure"]++
+			continue
+		}
+		if !p.PoolParams.UseOracle && hasAccountedPool(h.Cur, p.PoolId) {
+			// a leveraged pool that governance switched to constant-product pricing: its swaps are priced on the accounted
+			// balances, and the swap-fee conversion inside a swap meets them before the hooks have refreshed them. What
+			// leaves the pool beyond the curve goes to the fee revenue, not to the trader (whose payout c03FirstSwaps
+			// judges); the statement is about the trader's rate, so the per-share measure is not applied here
+			h.Labels[lbl+"-constant-product-pool-with-accounted-balances"]++
+			continue
+		}
+		if q.PoolParams.UseOracle != p.PoolParams.UseOracle {
+			h.Labels[lbl+"-pool-changed-its-pricing-mode"]++ // the two measures are not comparable (see c03FirstSwaps)
 			continue
 		}
 		// oracle prices of the pool's assets unchanged
@@ -254,7 +385,7 @@ func poolReserves(p *ammtypes.Pool) string {
 		if i > 0 {
 			s += ","
 		}
-		s += a.Token.String()
+		s += a.Token.String() + "(w" + a.Weight.String() + ")"
 	}
 	return s
 }
@@ -263,6 +394,15 @@ func poolReserves(p *ammtypes.Pool) string {
 func perpPoolOf(s *Snapshot, id uint64) bool {
 	for _, m := range s.MTPs {
 		if m.AmmPoolId == id {
+			return true
+		}
+	}
+	return false
+}
+
+func hasAccountedPool(s *Snapshot, id uint64) bool {
+	for _, ap := range s.Accounted {
+		if ap.PoolId == id {
 			return true
 		}
 	}
